@@ -293,7 +293,7 @@ def run(rep, tier):
                 ctext = add_detectors(text, nm) if sim == 'detect' else text
                 inp = {'circuit': ctext, 'sampler': sim, 'W': w, 'shots': shots, 'seed': seed}
                 try:
-                    o = svh.request('noisehist', [w, sim, seed, shots], ctext)
+                    o = svh.request('noisehist', [w, sim, seed, shots, '0', 1], ctext)
                 except core.Crash as e:
                     rep.violation(_entry(sim), 'crash', inp, str(e) + e.stderr[-500:])
                     svh = core.Svh('o1', timeout=600)
@@ -303,7 +303,16 @@ def run(rep, tier):
                     continue
                 hist = {l.split(' ')[1].replace('-', ''): int(l.split(' ')[2]) for l in o if l.startswith('H ')}
                 rep.count(('c05-hist', label, sim, w), nontrivial=len(pmf) > 1)
-                compare_hist(rep, _entry(sim), inp, hist, pmf_det if sim == 'detect' else pmf, shots)
+                use = pmf_det if sim == 'detect' else pmf
+                if compare_hist(rep, _entry(sim), inp, hist, use, shots) is not None and len(use) <= 16:
+                    # different shots are independent: consecutive (non-overlapping) shot pairs follow the product distribution
+                    ph = {}
+                    for l in o:
+                        if l.startswith('P '):
+                            t = l.split(' ')
+                            ph[t[1].replace('-', '') + '|' + t[2].replace('-', '')] = int(t[3])
+                    ppmf = {a + '|' + b: pa * pb for a, pa in use.items() for b, pb in use.items()}
+                    compare_hist(rep, _entry(sim), dict(inp, statistic='pairs of consecutive shots'), ph, ppmf, shots // 2)
                 resolution.append(shots)
         # DEM sampler: against the distribution of the model it is given (independent mechanisms)
         ctext = add_detectors(text, nm)
@@ -315,13 +324,20 @@ def run(rep, tier):
             shots = 600011 if quick else 3000017
             seed = rng.randrange(1 << 30)
             inp = {'circuit': ctext, 'sampler': 'dem', 'W': w, 'shots': shots, 'seed': seed}
-            o = svh.request('noisehist', [w, 'dem', seed, shots, '1.0'], ctext)
+            o = svh.request('noisehist', [w, 'dem', seed, shots, '1.0', 1], ctext)
             if o and o[-1].startswith('ERR'):
                 rep.violation(_entry('dem'), 'reject-valid', inp, o[-1][:300])
             else:
                 hist = {l.split(' ')[1].replace('-', ''): int(l.split(' ')[2]) for l in o if l.startswith('H ')}
                 rep.count(('c05-hist', label, 'dem', w), nontrivial=len(dp) > 1)
-                compare_hist(rep, _entry('dem'), inp, hist, dp, shots)
+                if compare_hist(rep, _entry('dem'), inp, hist, dp, shots) is not None and len(dp) <= 16:
+                    ph = {}
+                    for l in o:
+                        if l.startswith('P '):
+                            t = l.split(' ')
+                            ph[t[1].replace('-', '') + '|' + t[2].replace('-', '')] = int(t[3])
+                    ppmf = {a + '|' + b: pa * pb for a, pa in dp.items() for b, pb in dp.items()}
+                    compare_hist(rep, _entry('dem'), dict(inp, statistic='pairs of consecutive shots'), ph, ppmf, shots // 2)
     rep.sample({'circuit': allc[0][1]})
     rep.notes['sigma_threshold'] = ZMAX
     rep.notes['smallest_detectable_relative_deviation_at_p_0.3'] = '%.4f' % (ZMAX * math.sqrt(0.7 / 0.3 / max(resolution or [1])))
